@@ -171,3 +171,77 @@ def run(F, rep):
                 rep.check(not bad, 'C10.N1', '%s::doEquals|%s' % (cls, v['n']), f.where(v), 'cast result `%s` is dereferenced at line(s) %s without a null test' % (v['n'], sorted({n.get('l') for n in bad})), 'cast result null-tested before use (%d uses)' % len(uses))
     rep.floor('C10.F1', 20)
     rep.floor('C10.F2', 15)
+
+    # ------------------------------------------------------------------ M: one-to-one matching of children
+    rep.rule('C10.M1', 'where children are matched one to one (a container of still-unmatched candidates is shrunk by erase on every match), that container lives across the whole matching: '
+                       'it is declared outside the loop over the children being matched - otherwise every child merely needs SOME partner and multisets with different multiplicities compare equal')
+    n_m = 0
+    scope = [do_equals(F, c) for c in CLASSES] + [g for g in F.funcs.values() if g.name in ('equalEntities', 'areEquivalentEntities') and g.file.endswith('/utilities.cpp')]
+    for f in scope:
+        for e in f.walk():
+            if e.get('k') == 'Call' and e.get('mc') and e.get('fn') == 'erase' and e['c'][0].get('k') == 'Ref' and e['c'][0].get('dk') == 'local':
+                loops = [a for a in f.ancestors(e) if a.get('k') in ('For', 'RangeFor', 'While', 'Do')]
+                if not loops:
+                    continue
+                outer = loops[-1]
+                decl = [v for v in f.walk() if v.get('k') == 'Var' and v.get('d') == e['c'][0]['d']]
+                inside = bool(decl) and any(x is decl[0] for x in walk(outer))
+                n_m += 1
+                rep.check(not inside, 'C10.M1', '%s|%s' % (f.short, e['c'][0]['n']), f.where(e), '%s: the candidates container `%s` is re-created in every iteration of the outer matching loop, so a matched partner is offered again to the next child' % (f.short, e['c'][0]['n']),
+                          'declared before the outer loop')
+    if n_m < 2:
+        raise AnalysisBroken('C10.M1: one-to-one matching sites vanished (%d found, Units::doEquals and equalEntities confirmed)' % n_m)
+
+    # ------------------------------------------------------------------ P: a condition pairs the same attribute on both sides
+    rep.rule('C10.P1', 'in doEquals a conjunction that tests a field of this object for null together with a null test on the other object tests the SAME attribute there '
+                       '(the getter, possibly through a local, covers that field): a guard that pairs my variable with the other side\'s test variable makes equals() asymmetric')
+    from facts import null_test
+    n_p = 0
+    for cls in CLASSES:
+        f = do_equals(F, cls)
+        for b in f.walk():
+            if b.get('k') != 'Bin' or b.get('op') != '&&':
+                continue
+            p_ = f.parent(b)
+            if p_ is not None and p_.get('k') == 'Bin' and p_.get('op') == '&&':
+                continue    # only maximal conjunctions
+            conj = []
+            st = [b]
+            while st:
+                x = st.pop()
+                if x.get('k') == 'Bin' and x.get('op') == '&&':
+                    st.extend(x['c'])
+                elif x.get('k') == 'Paren' and x.get('c'):
+                    st.append(x['c'][0])
+                else:
+                    conj.append(x)
+            mine, theirs = [], []
+            for cnd in conj:
+                nt = null_test(cnd)
+                if nt is None:
+                    continue
+                e = nt[0]
+                flds = [m['n'] for m in walk(e) if m.get('k') == 'Member' and m.get('field') and is_this_like((m.get('c') or [None])[0])]
+                if flds:
+                    mine.append((flds[0], cnd))
+                    continue
+                # the other side: a getter call, or a local initialised by one
+                src = e
+                if e.get('k') == 'Ref' and e.get('dk') == 'local':
+                    for v in f.walk():
+                        if v.get('k') == 'Var' and v.get('d') == e['d'] and v.get('c'):
+                            src = v['c'][0]
+                getters = [c for c in walk(src) if c.get('k') == 'Call' and c.get('mc') and not c.get('opc') and not is_this_like(c['c'][0])]
+                cov = set()
+                for g_ in getters:
+                    for ck in F.callee_keys(g_):
+                        if ck in F.funcs:
+                            cov |= fields.this_reads(F, F.funcs[ck])
+                if cov:
+                    theirs.append((cov, cnd))
+            for fld, cnd in mine:
+                for cov, cnd2 in theirs:
+                    n_p += 1
+                    rep.check(fld in cov, 'C10.P1', '%s|%s' % (cls, render(b)[:60]), f.where(b), '%s::doEquals pairs the null test of %s with `%s`, which reads %s on the other object' % (cls, fld, render(cnd2)[:40], sorted(cov)[:3]), 'same attribute on both sides')
+    if n_p < 2:
+        raise AnalysisBroken('C10.P1: paired null tests vanished (%d found, 2 confirmed in Reset::doEquals)' % n_p)
